@@ -332,16 +332,11 @@ def run_enum(dst, hs, path=None):
     res = {}
     for h in hs:
         r = {'status': None, 'failed_checks': [], 'time': None}
-        m = re.search(r'^test %s \.\.\. (ok|FAILED)' % re.escape(h['full']), out, re.M)
-        if m:
-            r['status'] = 'pass' if m.group(1) == 'ok' else 'fail'
-        else:
-            # libtest prints "test X ... " and the verdict later when output is not captured
-            m = re.search(r'^test %s \.\.\. .*?(ok|FAILED)$' % re.escape(h['full']), out, re.M | re.S)
-            if m:
-                r['status'] = 'pass' if m.group(1) == 'ok' else 'fail'
+        # the verdict comes from the harness's own one-line markers (each written by a single eprintln!, hence never interleaved
+        # with the output of the other test threads), not from libtest's "test X ... ok" lines, which --nocapture can split
         d = re.search(r'VERIF-ENUM-DONE harness=%s executions=(\d+) rejected_by_assume=(\d+)' % re.escape(h['full']), out)
         if d:
+            r['status'] = 'pass'
             r['executions'] = int(d.group(1))
             r['rejected'] = int(d.group(2))
         f = re.search(r'VERIF-ENUM-FAIL harness=%s choices=([\d,]*)' % re.escape(h['full']), out)
@@ -350,8 +345,6 @@ def run_enum(dst, hs, path=None):
             r['choices'] = [int(x) for x in f.group(1).split(',') if x]
             pm = re.findall(r"panicked at [^\n]*\n([^\n]*)", out)
             r['failed_checks'] = pm[:3]
-        if r['status'] == 'pass' and not d:
-            r['status'] = None   # did not run through explore(): not a verdict
         res[h['full']] = r
     return rc, out, time.time() - t0, "RUSTFLAGS='--cfg verif_replay' " + ' '.join(cmd), res
 
